@@ -16,6 +16,7 @@
    WriteResult. Definitions only. *)
 From Coq Require Import NArith List String Bool.
 From Rodbus Require Import Base.ServerTypes Base.Show Gen.FfiTables Model.Ffi Model.DbTypes Model.Database.
+From Rodbus Require Spec.FfiWireSpec.
 Import ListNotations.
 Local Open Scope N_scope.
 
@@ -118,6 +119,24 @@ Definition prog_handler : c_write_handler N := {|
     let '(d', r) := prog_points Coil d (map (fun p => (fst p, VBit (snd p))) items) in (n + 1, d', r));
   c_write_multiple_registers := Some (fun n d _ items =>
     let '(d', r) := prog_points Holding d (map (fun p => (fst p, VReg (snd p))) items) in (n + 1, d', r))
+|}.
+
+(* the richer programmable application of Spec/FfiWireSpec.v (write callbacks that also change discrete inputs and
+   input registers) as C callbacks: the exception NAME of its WriteResult becomes the C enum value of that name *)
+Definition fme_of_name (name : string) : ffi_modbus_exception :=
+  match find (fun e => String.eqb (name_ffi_modbus_exception e) name) all_ffi_modbus_exception with
+  | Some e => e
+  | None => FME_Unknown
+  end.
+Definition c_of_sp (r : FfiWireSpec.sp_result) : c_result := let '(s, name, raw) := r in (s, fme_of_name name, raw).
+
+Definition prog2_handler : c_write_handler N := {|
+  c_write_single_coil := Some (fun n d i v => let '(d', r) := FfiWireSpec.prog2_point Coil d i (VBit v) in (n + 1, d', c_of_sp r));
+  c_write_single_register := Some (fun n d i v => let '(d', r) := FfiWireSpec.prog2_point Holding d i (VReg v) in (n + 1, d', c_of_sp r));
+  c_write_multiple_coils := Some (fun n d _ items =>
+    let '(d', r) := FfiWireSpec.prog2_points Coil d (map (fun p => (fst p, VBit (snd p))) items) in (n + 1, d', c_of_sp r));
+  c_write_multiple_registers := Some (fun n d _ items =>
+    let '(d', r) := FfiWireSpec.prog2_points Holding d (map (fun p => (fst p, VReg (snd p))) items) in (n + 1, d', c_of_sp r))
 |}.
 
 (* an application that sets no callback at all *)
